@@ -17,6 +17,7 @@ package main
 import (
 	"fmt"
 	"go/types"
+	"path/filepath"
 	"strings"
 	"sync"
 
@@ -296,8 +297,10 @@ func (in *Interp) pickNext(self *gor, free bool) *gor {
 	if len(cands) == 1 {
 		return cands[0]
 	}
-	if free && self.state == gRunnable {
-		return cands[in.choose(len(cands), "schedule")]
+	if free && self.state == gRunnable && len(cands) > 1 {
+		// fair yield (Sleep, Gosched, waiting for a timer, vYield): by default the next goroutine
+		// runs and the yielding one goes to the end of the round-robin order
+		cands = append(cands[1:], self)
 	}
 	m := len(cands)
 	if left := in.cfg.MaxPreempt - s.preempts; left+1 < m {
@@ -345,7 +348,8 @@ func (in *Interp) schedPoint(what string) {
 	in.switchTo(self, next)
 }
 
-// yieldPoint is an explicit yield: switching is free.
+// yieldPoint is an explicit yield: by default the next enabled goroutine runs (fairness for
+// polling loops), staying on the yielding goroutine is a deviation like any other.
 func (in *Interp) yieldPoint() {
 	s := &in.sch
 	if !s.on || len(s.gs) == 1 || s.inInit > 0 {
@@ -406,7 +410,7 @@ func (in *Interp) doSelect(cases []selCase, blocking bool, what string) (int, va
 			}
 		}
 		if len(ready) > 0 {
-			i := ready[in.choose(len(ready), "select")]
+			i := ready[in.chooseReady(cases, ready)]
 			v, ok := in.performCase(self, cases[i])
 			return i, v, ok
 		}
@@ -421,6 +425,39 @@ func (in *Interp) doSelect(cases []selCase, blocking bool, what string) (int, va
 			return w.chosen, w.recv, w.recvOK
 		}
 	}
+}
+
+// chooseReady picks one of the ready cases of a select. Go picks uniformly at random, so every
+// ready case is a legitimate outcome; with timers that are ready at once (virtual time) a polling
+// loop `select { case <-time.After(d): ...; case <-ctx.Done(): return }` would have an unbounded
+// number of outcomes. A ready non-timer case therefore goes first (a timer fires only if nothing
+// else is ready), all non-timer alternatives are explored freely, and preferring a timer over a
+// ready non-timer case is a deviation charged to the delay budget.
+func (in *Interp) chooseReady(cases []selCase, ready []int) int {
+	if len(ready) == 1 {
+		return 0
+	}
+	var plain, timers []int
+	for k, i := range ready {
+		if cases[i].ch != nil && cases[i].ch.timer {
+			timers = append(timers, k)
+		} else {
+			plain = append(plain, k)
+		}
+	}
+	if len(plain) == 0 || len(timers) == 0 {
+		return in.choose(len(ready), "select")
+	}
+	n := len(plain)
+	if in.cfg.MaxPreempt-in.sch.preempts > 0 {
+		n += len(timers)
+	}
+	k := in.choose(n, "select")
+	if k < len(plain) {
+		return plain[k]
+	}
+	in.sch.preempts++
+	return timers[k-len(plain)]
 }
 
 var noVC vclock
@@ -480,6 +517,9 @@ func (in *Interp) schedSend(fr *frame, ch *hchan, v value) {
 }
 
 func (in *Interp) schedRecv(fr *frame, ch *hchan, et types.Type) (value, bool) {
+	if ch != nil && ch.timer {
+		in.yieldPoint() // waiting for a timer lets the others run
+	}
 	if ch == nil {
 		in.block(&waitOp{pred: func() bool { return false }, what: "receive from nil channel at " + fr.pos()})
 	}
@@ -528,6 +568,12 @@ func (in *Interp) schedSelectOp(fr *frame, instr *ssa.Select) value {
 			cases[i].val = fr.get(st.Send)
 		}
 	}
+	for _, c := range cases {
+		if c.ch != nil && c.ch.timer && instr.Blocking {
+			in.yieldPoint() // waiting for a timer lets the others run
+			break
+		}
+	}
 	i, v, ok := in.doSelect(cases, instr.Blocking, "select at "+fr.pos())
 	if i < 0 {
 		return res
@@ -543,6 +589,31 @@ func (in *Interp) schedSelectOp(fr *frame, instr *ssa.Select) value {
 }
 
 // ---- sync ----
+
+// lockSiteTag names a Lock / RLock call site inside the package under test (the native replay
+// routes exactly these sites through vLk, see replay.go); "" for other callers.
+func (in *Interp) lockSiteTag(fr *frame) string {
+	if fr == nil || fr.fn == nil || fr.fn.Pkg != in.P.mainPkg || fr.curInstr == nil {
+		return ""
+	}
+	if _, isDefer := fr.curInstr.(*ssa.Defer); isDefer {
+		return ""
+	}
+	if _, isGo := fr.curInstr.(*ssa.Go); isGo {
+		return ""
+	}
+	pos := in.P.fset.Position(fr.curInstr.Pos())
+	if !pos.IsValid() || strings.HasPrefix(filepath.Base(pos.Filename), "zz_verif_") {
+		return ""
+	}
+	return "L:" + fr.pos()
+}
+
+func (in *Interp) logSched(s string) {
+	if s != "" && len(in.sch.log) < 2000 {
+		in.sch.log = append(in.sch.log, s)
+	}
+}
 
 func (in *Interp) lockOf(p *value) *lockState {
 	l := in.sch.locks[p]
@@ -576,10 +647,17 @@ func init() {
 	schedOr("(*sync.Mutex).Lock", func(fr *frame, fn *ssa.Function, args []value) value {
 		in := fr.in
 		l := in.lockOf(ptr(in, args[0]))
+		tag := in.lockSiteTag(fr)
+		if tag != "" {
+			in.logSched("+" + tag)
+		}
 		in.schedPoint("Lock")
 		in.waitUntil("Mutex.Lock at "+fr.pos(), func() bool { return !l.locked })
 		l.locked = true
 		in.hbAcquire(in.sch.cur, &l.vc)
+		if tag != "" {
+			in.logSched("-" + tag)
+		}
 		return nil
 	})
 	schedOr("(*sync.Mutex).TryLock", func(fr *frame, fn *ssa.Function, args []value) value {
@@ -606,11 +684,18 @@ func init() {
 	schedOr("(*sync.RWMutex).Lock", func(fr *frame, fn *ssa.Function, args []value) value {
 		in := fr.in
 		l := in.lockOf(ptr(in, args[0]))
+		tag := in.lockSiteTag(fr)
+		if tag != "" {
+			in.logSched("+" + tag)
+		}
 		in.schedPoint("Lock")
 		in.waitUntil("RWMutex.Lock at "+fr.pos(), func() bool { return !l.locked && l.readers == 0 })
 		l.locked = true
 		in.hbAcquire(in.sch.cur, &l.vc)
 		in.hbAcquire(in.sch.cur, &l.rvc)
+		if tag != "" {
+			in.logSched("-" + tag)
+		}
 		return nil
 	})
 	schedOr("(*sync.RWMutex).Unlock", func(fr *frame, fn *ssa.Function, args []value) value {
@@ -626,10 +711,17 @@ func init() {
 	schedOr("(*sync.RWMutex).RLock", func(fr *frame, fn *ssa.Function, args []value) value {
 		in := fr.in
 		l := in.lockOf(ptr(in, args[0]))
+		tag := in.lockSiteTag(fr)
+		if tag != "" {
+			in.logSched("+" + tag)
+		}
 		in.schedPoint("RLock")
 		in.waitUntil("RWMutex.RLock at "+fr.pos(), func() bool { return !l.locked })
 		l.readers++
 		in.hbAcquire(in.sch.cur, &l.vc)
+		if tag != "" {
+			in.logSched("-" + tag)
+		}
 		return nil
 	})
 	schedOr("(*sync.RWMutex).RUnlock", func(fr *frame, fn *ssa.Function, args []value) value {
@@ -711,6 +803,12 @@ func init() {
 				return f(fr, fn, args)
 			})
 		}
+	}
+	for _, n := range []string{"(*sync.Cond).Broadcast", "(*sync.Cond).Signal", "(*sync.Cond).Wait"} {
+		n := n
+		schedOr(n, func(fr *frame, fn *ssa.Function, args []value) value {
+			panic(unsupported(n + " is not modelled by the scheduler"))
+		})
 	}
 	for _, n := range []string{"runtime.Gosched", "time.Sleep"} {
 		schedOr(n, func(fr *frame, fn *ssa.Function, args []value) value {
